@@ -5,8 +5,12 @@ import (
 	"encoding/json"
 	"fmt"
 	"os"
+	"path/filepath"
+	"runtime"
 	"runtime/debug"
 	"sort"
+	"strconv"
+	"time"
 
 	"github.com/trustbloc/logutil-go/pkg/log"
 
@@ -74,6 +78,7 @@ func main() {
 	hx.PanicHook = func(item int, r interface{}, stack string) {
 		c.Violation(fmt.Sprintf("%s library code panicked in-process (work item %d): %v", id, item, r), map[string]interface{}{"panic": fmt.Sprint(r), "stack": stack})
 	}
+	go watchdog(c)
 	func() {
 		defer func() {
 			if r := recover(); r != nil {
@@ -83,4 +88,31 @@ func main() {
 		def.fn(c)
 	}()
 	os.Exit(c.Finish())
+}
+
+// watchdog is the generous wall-clock guard around a whole check: when no evaluation, counter or violation has been
+// recorded for VERIF_WATCHDOG_MIN minutes (default 45) it writes all goroutine stacks next to the evidence and ends the run
+// as inconclusive - never as a violation (non-termination of library calls is decided by logical step budgets instead).
+func watchdog(c *hx.Ctx) {
+	limit := 45
+	if v, err := strconv.Atoi(os.Getenv("VERIF_WATCHDOG_MIN")); err == nil && v > 0 {
+		limit = v
+	}
+	last, idle := c.Progress(), 0
+	for {
+		time.Sleep(time.Minute)
+		if p := c.Progress(); p != last {
+			last, idle = p, 0
+			continue
+		}
+		idle++
+		if idle >= limit {
+			buf := make([]byte, 8<<20)
+			buf = buf[:runtime.Stack(buf, true)]
+			path := filepath.Join(os.TempDir(), fmt.Sprintf("vcheck-watchdog-%s-%d.txt", c.ID, os.Getpid()))
+			_ = os.WriteFile(path, buf, 0o644)
+			c.Inconclusive("wall-clock watchdog: no progress for %d minutes (goroutine stacks in %s)", limit, path)
+			os.Exit(c.Finish())
+		}
+	}
 }
